@@ -58,4 +58,20 @@ def rulesRelB (x : Ext) (ev : Event) : List S.SRule → List CompiledRule → Bo
   | sr :: rs, cr :: cs => ruleRelB x ev sr cr && rulesRelB x ev rs cs
   | _, _ => false
 
+/-- numbers that fit their Rust types (always the case for values built by Rust code) -/
+def numWfB : Num → Bool
+  | .int v => decide (-(2:Int)^63 ≤ v) && decide (v < 2^63)
+  | .uint v => decide (v < 2^64)
+  | .float _ => true
+
+def fvWfB : FieldValue → Bool
+  | .num n => numWfB n
+  | _ => true
+
+/-- an event given by a finite list of fields (what the driver decodes) -/
+def eventOfFields (source : Str) (id : Int) (fields : List (List Str × FieldValue)) : Event :=
+  { source := source, id := id, get := fun segs => fields.lookup segs }
+
+def fieldsWfB (fields : List (List Str × FieldValue)) : Bool := fields.all (fun p => fvWfB p.2)
+
 end Gene.Props.Refine
